@@ -15,6 +15,7 @@ import (
 	"go/ast"
 	"go/constant"
 	"go/token"
+	"go/types"
 	"strings"
 )
 
@@ -147,51 +148,8 @@ func init() {
 				emitQcmp("clone_sc_cmp_line2", cs[3])
 			}
 		}
-		// classifyCloneType: four comparisons similarity OP threshold
-		if fd := get(p, "clone_detector.go", "CloneDetector", "classifyCloneType"); fd != nil {
-			cs := cmpOps(p, fd)
-			if len(cs) != 4 {
-				fail("classifyCloneType: expected 4 comparisons, got %d", len(cs))
-			} else {
-				for i, c := range cs {
-					if c.x != "similarity" || !strings.HasSuffix(c.y, fmt.Sprintf("Type%dThreshold", i+1)) {
-						fail("classifyCloneType: comparison %d is %s %s %s", i, c.x, c.op, c.y)
-					}
-					emitQcmp(fmt.Sprintf("clone_classify_cmp%d", i+1), c)
-				}
-			}
-		}
-		// isSignificantClone: minThreshold <= 0; pair.Similarity < minThreshold; MaxEditDistance > 0; Distance > Max; minSize >= MinNodes
-		if fd := get(p, "clone_detector.go", "CloneDetector", "isSignificantClone"); fd != nil {
-			cs := cmpOps(p, fd)
-			if len(cs) != 5 {
-				fail("isSignificantClone: expected 5 comparisons, got %d", len(cs))
-			} else {
-				emitQcmp("clone_sig_cmp_unset", cs[0])
-				emitQcmp("clone_sig_cmp_below", cs[1])
-				emitQcmp("clone_sig_cmp_distset", cs[2])
-				emitQcmp("clone_sig_cmp_dist", cs[3])
-				emitZcmp("clone_sig_cmp_size", cs[4])
-			}
-		}
-		if fd := get(p, "clone_detector.go", "CloneDetector", "isOverlappingLocation"); fd != nil {
-			cs := cmpOps(p, fd)
-			if len(cs) != 2 || cs[0].x != "loc1.EndLine" || cs[0].y != "loc2.StartLine" || cs[1].x != "loc2.EndLine" || cs[1].y != "loc1.StartLine" {
-				fail("isOverlappingLocation: unexpected comparisons %v", cs)
-			} else {
-				emitZcmp("clone_overlap_cmp1", cs[0])
-				emitZcmp("clone_overlap_cmp2", cs[1])
-			}
-		}
-		if fd := get(p, "clone_detector.go", "CloneDetector", "shouldIncludeFragment"); fd != nil {
-			cs := cmpOps(p, fd)
-			if len(cs) != 2 || cs[0].x != "fragment.Size" || cs[1].x != "fragment.LineCount" {
-				fail("shouldIncludeFragment: unexpected comparisons %v", cs)
-			} else {
-				emitZcmp("clone_include_cmp_nodes", cs[0]) // true = rejected
-				emitZcmp("clone_include_cmp_lines", cs[1])
-			}
-		}
+		// classifyCloneType, isOverlappingLocation, shouldIncludeFragment: read by evaluation (goeval.go), not by shape
+		cloneDecisions(&b, p, sp)
 		if fd := get(p, "clone_detector.go", "CloneDetector", "tryCreateClonePair"); fd != nil {
 			cs := cmpOps(p, fd)
 			if len(cs) != 1 {
@@ -269,16 +227,7 @@ func init() {
 				fail("NewMinHasher: fallback numHashes not found")
 			}
 		}
-		// service: filterClonePairs comparisons and createDetectorConfig literals
-		if fd := get(sp, "clone_service.go", "CloneService", "filterClonePairs"); fd != nil {
-			cs := cmpOps(sp, fd)
-			if len(cs) != 2 || cs[0].y != "req.MinSimilarity" || cs[1].y != "req.MaxSimilarity" {
-				fail("filterClonePairs: unexpected comparisons %v", cs)
-			} else {
-				emitQcmp("clone_filter_cmp_min", cs[0]) // true = dropped
-				emitQcmp("clone_filter_cmp_max", cs[1])
-			}
-		}
+		// service: createDetectorConfig literals (filterClonePairs is read by evaluation in cloneDecisions)
 		if fd := get(sp, "clone_service.go", "CloneService", "createDetectorConfig"); fd != nil {
 			f := compositeFields(fd, "analyzer.CloneDetectorConfig")
 			for _, k := range []string{"MaxClonePairs", "BatchSizeThreshold"} {
@@ -316,4 +265,367 @@ func init() {
 		recordDigest(dp, "clone.go", "CloneRequest", "Validate")
 		recordDigest(dp, "clone.go", "", "ShouldUseLSH")
 	})
+}
+
+// ---------------------------------------------------------------------------------------------------
+// decision functions read by evaluation
+// ---------------------------------------------------------------------------------------------------
+
+// probe3 evaluates f at "left operand one below / equal to / one above the right operand" and names the comparison.
+func probe3(what string, f func(rel int64) (bool, error)) (token.Token, bool) {
+	var r [3]bool
+	for i, rel := range []int64{-1, 0, 1} {
+		v, err := f(rel)
+		if err != nil {
+			fail("%s: cannot be evaluated: %v", what, err)
+			return token.ILLEGAL, false
+		}
+		r[i] = v
+	}
+	op, ok := inferCmp(r[0], r[1], r[2])
+	if !ok {
+		fail("%s: the code does not behave like a comparison of the two modelled operands (below/equal/above -> %v/%v/%v)", what, r[0], r[1], r[2])
+	}
+	return op, ok
+}
+
+func asBool(v Value, err error) (bool, error) {
+	if err != nil {
+		return false, err
+	}
+	b, ok := v.(bool)
+	if !ok {
+		return false, fmt.Errorf("result is %T, not a bool", v)
+	}
+	return b, nil
+}
+
+func asInt(v Value, err error) (int64, error) {
+	if err != nil {
+		return 0, err
+	}
+	n, ok := v.(int64)
+	if !ok {
+		return 0, fmt.Errorf("result is %T, not an integer", v)
+	}
+	return n, nil
+}
+
+func asString(v Value, err error) (string, error) {
+	if err != nil {
+		return "", err
+	}
+	s, ok := v.(string)
+	if !ok {
+		return "", fmt.Errorf("result is %T, not a string", v)
+	}
+	return s, nil
+}
+
+func cloneDecisions(b *strings.Builder, p, sp *pkgInfo) {
+	in := newInterp(p, sp)
+	const file, recv = "clone_detector.go", "CloneDetector"
+	pct := func(n int64) float64 { return float64(n) / 100 }
+	detector := func(t1, t2, t3, t4, minNodes, minLines int64) *Struct {
+		return mkStruct("CloneDetector", "cloneDetectorConfig", mkStruct("CloneDetectorConfig",
+			"Type1Threshold", pct(t1), "Type2Threshold", pct(t2), "Type3Threshold", pct(t3), "Type4Threshold", pct(t4),
+			"MinNodes", minNodes, "MinLines", minLines))
+	}
+	emitQ := func(name, comment string, op token.Token) {
+		s, ok := cloneQCmp(op)
+		if !ok {
+			fail("%s: comparison %s has no Q rendering", name, op)
+			return
+		}
+		fmt.Fprintf(b, "(* %s: behaves as a %s b *)\nDefinition %s (a b : Q) : bool := %s.\n", comment, op, name, s)
+	}
+	emitZ := func(name, comment string, op token.Token) {
+		s, ok := cloneZCmp(op)
+		if !ok {
+			fail("%s: comparison %s has no Z rendering", name, op)
+			return
+		}
+		fmt.Fprintf(b, "(* %s: behaves as a %s b *)\nDefinition %s (a b : Z) : bool := %s.\n", comment, op, name, s)
+	}
+
+	// ---- classifyCloneType(similarity, distance) -----------------------------------------------
+	if fd := findFunc(p, file, recv, "classifyCloneType"); fd == nil {
+		fail("function not found: %s %s.classifyCloneType", file, recv)
+	} else {
+		classify := func(cd *Struct, s int64) (int64, error) { return asInt(in.call1(p, fd, cd, pct(s), float64(0))) }
+		thr := []int64{90, 80, 70, 60}
+		cd := detector(thr[0], thr[1], thr[2], thr[3], 1, 1)
+		// the code of each clone type, through go/types
+		codes := make([]int64, 4)
+		okCodes := true
+		for i := range codes {
+			c, _ := p.pkg.Scope().Lookup(fmt.Sprintf("Type%dClone", i+1)).(*types.Const)
+			if c == nil {
+				fail("classifyCloneType: constant Type%dClone not found", i+1)
+				okCodes = false
+				continue
+			}
+			v, _ := constToValue(c.Val(), c.Type())
+			codes[i], _ = v.(int64)
+		}
+		if okCodes {
+			for i := 0; i < 4; i++ {
+				i := i
+				op, ok := probe3(fmt.Sprintf("classifyCloneType: similarity against Type%dThreshold", i+1), func(rel int64) (bool, error) {
+					c, err := classify(cd, thr[i]+rel)
+					return c == codes[i], err
+				})
+				if ok {
+					emitQ(fmt.Sprintf("clone_classify_cmp%d", i+1), fmt.Sprintf("classifyCloneType, similarity a against Type%dThreshold b", i+1), op)
+				}
+			}
+		}
+		// decision table: (similarity, (t1, t2, t3, t4)) -> clone type code (0 = not a clone)
+		var rows []string
+		for _, ts := range [][4]int64{{90, 80, 70, 60}, {98, 95, 85, 70}, {80, 80, 80, 80}, {60, 70, 80, 90}, {100, 50, 50, 0}, {70, 90, 60, 80}} {
+			cdt := detector(ts[0], ts[1], ts[2], ts[3], 1, 1)
+			seen := map[int64]bool{}
+			var ss []int64
+			for _, t := range append([]int64{0, 100, 101, -1, 55}, ts[:]...) {
+				for _, d := range []int64{-1, 0, 1} {
+					if !seen[t+d] {
+						seen[t+d] = true
+						ss = append(ss, t+d)
+					}
+				}
+			}
+			for _, s := range ss {
+				c, err := classify(cdt, s)
+				if err != nil {
+					fail("classifyCloneType: cannot be evaluated: %v", err)
+					rows = nil
+					break
+				}
+				rows = append(rows, fmt.Sprintf("((%s, (%s, %s, %s, %s)), %s)", coqQfrac(s, 100), coqQfrac(ts[0], 100), coqQfrac(ts[1], 100),
+					coqQfrac(ts[2], 100), coqQfrac(ts[3], 100), coqZint(c)))
+			}
+		}
+		emitTable(b, "classifyCloneType_table", "(Q * (Q * Q * Q * Q)) * Z", rows)
+	}
+
+	// ---- isOverlappingLocation(loc1, loc2) ------------------------------------------------------
+	if fd := findFunc(p, file, recv, "isOverlappingLocation"); fd == nil {
+		fail("function not found: %s %s.isOverlappingLocation", file, recv)
+	} else {
+		cd := detector(90, 80, 70, 60, 1, 1)
+		loc := func(f string, s, e int64) *Struct {
+			return mkStruct("CodeLocation", "FilePath", f, "StartLine", s, "EndLine", e, "StartCol", int64(0), "EndCol", int64(0))
+		}
+		overlap := func(a, c *Struct) (bool, error) { return asBool(in.call1(p, fd, cd, a, c)) }
+		// cmp1 a b: "loc1 ends (a) before loc2 starts (b)" makes the ranges disjoint; the other clause is kept false
+		if op, ok := probe3("isOverlappingLocation: loc1.EndLine against loc2.StartLine", func(rel int64) (bool, error) {
+			o, err := overlap(loc("f", 10, 20+rel), loc("f", 20, 100))
+			return !o, err
+		}); ok {
+			emitZ("clone_overlap_cmp1", "isOverlappingLocation, loc1.EndLine a against loc2.StartLine b (true = disjoint)", op)
+		}
+		if op, ok := probe3("isOverlappingLocation: loc2.EndLine against loc1.StartLine", func(rel int64) (bool, error) {
+			o, err := overlap(loc("f", 20, 100), loc("f", 10, 20+rel))
+			return !o, err
+		}); ok {
+			emitZ("clone_overlap_cmp2", "isOverlappingLocation, loc2.EndLine a against loc1.StartLine b (true = disjoint)", op)
+		}
+		// decision table: ((same file, (start1, end1)), (start2, end2)) -> overlapping
+		var rows []string
+		bad := false
+		for _, same := range []bool{true, false} {
+			hi := int64(4)
+			if !same {
+				hi = 2
+			}
+			for s1 := int64(1); s1 <= hi && !bad; s1++ {
+				for e1 := int64(1); e1 <= hi && !bad; e1++ {
+					for s2 := int64(1); s2 <= hi && !bad; s2++ {
+						for e2 := int64(1); e2 <= hi; e2++ {
+							f2 := "f"
+							if !same {
+								f2 = "g"
+							}
+							o, err := overlap(loc("f", s1, e1), loc(f2, s2, e2))
+							if err != nil {
+								fail("isOverlappingLocation: cannot be evaluated: %v", err)
+								bad = true
+								break
+							}
+							rows = append(rows, fmt.Sprintf("(((%s, (%s, %s)), (%s, %s)), %s)", coqBool(same), coqZint(s1), coqZint(e1), coqZint(s2), coqZint(e2), coqBool(o)))
+						}
+					}
+				}
+			}
+		}
+		if bad {
+			rows = nil
+		}
+		emitTable(b, "isOverlappingLocation_table", "((bool * (Z * Z)) * (Z * Z)) * bool", rows)
+	}
+
+	// ---- shouldIncludeFragment(fragment) --------------------------------------------------------
+	if fd := findFunc(p, file, recv, "shouldIncludeFragment"); fd == nil {
+		fail("function not found: %s %s.shouldIncludeFragment", file, recv)
+	} else {
+		include := func(size, lines, minNodes, minLines int64) (bool, error) {
+			return asBool(in.call1(p, fd, detector(90, 80, 70, 60, minNodes, minLines), mkStruct("CodeFragment", "Size", size, "LineCount", lines)))
+		}
+		if op, ok := probe3("shouldIncludeFragment: fragment.Size against MinNodes", func(rel int64) (bool, error) {
+			o, err := include(20+rel, 1000, 20, 5)
+			return !o, err
+		}); ok {
+			emitZ("clone_include_cmp_nodes", "shouldIncludeFragment, fragment.Size a against MinNodes b (true = rejected)", op)
+		}
+		if op, ok := probe3("shouldIncludeFragment: fragment.LineCount against MinLines", func(rel int64) (bool, error) {
+			o, err := include(1000, 5+rel, 20, 5)
+			return !o, err
+		}); ok {
+			emitZ("clone_include_cmp_lines", "shouldIncludeFragment, fragment.LineCount a against MinLines b (true = rejected)", op)
+		}
+		// decision table: ((size, lines), (minNodes, minLines)) -> included
+		var rows []string
+		for _, m := range [][2]int64{{20, 5}, {1, 1}, {5, 20}, {7, 7}} {
+			for _, ds := range []int64{-1, 0, 1} {
+				for _, dl := range []int64{-1, 0, 1} {
+					o, err := include(m[0]+ds, m[1]+dl, m[0], m[1])
+					if err != nil {
+						fail("shouldIncludeFragment: cannot be evaluated: %v", err)
+						continue
+					}
+					rows = append(rows, fmt.Sprintf("(((%s, %s), (%s, %s)), %s)", coqZint(m[0]+ds), coqZint(m[1]+dl), coqZint(m[0]), coqZint(m[1]), coqBool(o)))
+				}
+			}
+		}
+		emitTable(b, "shouldIncludeFragment_table", "((Z * Z) * (Z * Z)) * bool", rows)
+	}
+
+	// ---- isSignificantClone(pair) ----------------------------------------------------------------------
+	if fd := findFunc(p, file, recv, "isSignificantClone"); fd == nil {
+		fail("function not found: %s %s.isSignificantClone", file, recv)
+	} else {
+		// similarities in 1/100, distances in 1/10
+		sig := func(simThr, t4, maxDist, minNodes, sim, dist, size1, size2 int64) (bool, error) {
+			cd := mkStruct("CloneDetector", "cloneDetectorConfig", mkStruct("CloneDetectorConfig", "SimilarityThreshold", pct(simThr), "Type4Threshold", pct(t4),
+				"MaxEditDistance", float64(maxDist)/10, "MinNodes", minNodes))
+			pair := mkStruct("ClonePair", "Similarity", pct(sim), "Distance", float64(dist)/10,
+				"Fragment1", mkStruct("CodeFragment", "Size", size1), "Fragment2", mkStruct("CodeFragment", "Size", size2))
+			return asBool(in.call1(p, fd, cd, pair))
+		}
+		not := func(v bool, err error) (bool, error) { return !v, err }
+		if op, ok := probe3("isSignificantClone: SimilarityThreshold against 0", func(rel int64) (bool, error) {
+			return not(sig(rel, 60, 0, 1, 30, 0, 50, 50))
+		}); ok {
+			emitQ("clone_sig_cmp_unset", "isSignificantClone, SimilarityThreshold a against 0 (true = unset, Type4Threshold is used)", op)
+		}
+		if op, ok := probe3("isSignificantClone: similarity against the threshold", func(rel int64) (bool, error) {
+			return not(sig(50, 60, 0, 1, 50+rel, 0, 50, 50))
+		}); ok {
+			emitQ("clone_sig_cmp_below", "isSignificantClone, pair.Similarity a against the minimum b (true = rejected)", op)
+		}
+		if op, ok := probe3("isSignificantClone: MaxEditDistance against 0", func(rel int64) (bool, error) {
+			return not(sig(50, 60, rel*10, 1, 90, 50, 50, 50))
+		}); ok {
+			emitQ("clone_sig_cmp_distset", "isSignificantClone, MaxEditDistance a against 0 (true = a limit is set)", op)
+		}
+		if op, ok := probe3("isSignificantClone: distance against MaxEditDistance", func(rel int64) (bool, error) {
+			return not(sig(50, 60, 50, 1, 90, 50+rel, 50, 50))
+		}); ok {
+			emitQ("clone_sig_cmp_dist", "isSignificantClone, pair.Distance a against MaxEditDistance b (true = rejected)", op)
+		}
+		if op, ok := probe3("isSignificantClone: smaller fragment size against MinNodes", func(rel int64) (bool, error) {
+			return sig(50, 60, 0, 10, 90, 0, 10+rel, 50)
+		}); ok {
+			emitZ("clone_sig_cmp_size", "isSignificantClone, min(size1, size2) a against MinNodes b (true = accepted)", op)
+		}
+		// decision table: ((((SimilarityThreshold, Type4Threshold), MaxEditDistance), MinNodes), ((similarity, distance), (size1, size2))) -> significant
+		var rows []string
+		bad := false
+		for _, c := range [][4]int64{{50, 60, 0, 10}, {0, 60, 0, 10}, {-1, 60, 30, 10}, {70, 60, 30, 1}, {1, 99, 0, 10}} {
+			for _, sd := range [][2]int64{{c[0] - 1, 0}, {c[0], 0}, {c[0] + 1, 29}, {c[1] - 1, 30}, {c[1], 30}, {c[1] + 1, 31}, {100, 500}, {100, 0}} {
+				for _, sz := range [][2]int64{{c[3] - 1, 50}, {c[3], c[3]}, {50, c[3] + 1}, {50, c[3] - 1}} {
+					v, err := sig(c[0], c[1], c[2], c[3], sd[0], sd[1], sz[0], sz[1])
+					if err != nil {
+						if !bad {
+							fail("isSignificantClone: cannot be evaluated: %v", err)
+						}
+						bad = true
+						continue
+					}
+					rows = append(rows, fmt.Sprintf("(((((%s, %s), %s), %s), ((%s, %s), (%s, %s))), %s)", coqQfrac(c[0], 100), coqQfrac(c[1], 100), coqQfrac(c[2], 10), coqZint(c[3]),
+						coqQfrac(sd[0], 100), coqQfrac(sd[1], 10), coqZint(sz[0]), coqZint(sz[1]), coqBool(v)))
+				}
+			}
+		}
+		if bad {
+			rows = nil
+		}
+		emitTable(b, "isSignificantClone_table", "((((Q * Q) * Q) * Z) * ((Q * Q) * (Z * Z))) * bool", rows)
+	}
+
+	// ---- service.CloneService.filterClonePairs(pairs, req) -------------------------------------------------
+	if fd := findFunc(sp, "clone_service.go", "CloneService", "filterClonePairs"); fd == nil {
+		fail("function not found: clone_service.go CloneService.filterClonePairs")
+	} else {
+		type it struct{ sim, typ int64 }
+		kept := func(lo, hi int64, types []int64, items []it) ([]int64, error) {
+			xs := &Slice{}
+			for i, x := range items {
+				xs.E = append(xs.E, mkStruct("ClonePair", "ID", int64(i), "Similarity", pct(x.sim), "Type", x.typ))
+			}
+			ts := &Slice{}
+			for _, t := range types {
+				ts.E = append(ts.E, t)
+			}
+			v, err := in.call1(sp, fd, mkStruct("CloneService"), xs, mkStruct("CloneRequest", "MinSimilarity", pct(lo), "MaxSimilarity", pct(hi), "CloneTypes", ts))
+			if err != nil {
+				return nil, err
+			}
+			var out []int64
+			if s, _ := v.(*Slice); s != nil {
+				for _, e := range s.E {
+					n, _ := e.(*Struct).F["ID"].(int64)
+					out = append(out, n)
+				}
+			}
+			return out, nil
+		}
+		if op, ok := probe3("filterClonePairs: similarity against MinSimilarity", func(rel int64) (bool, error) {
+			k, err := kept(50, 100, []int64{1}, []it{{50 + rel, 1}})
+			return len(k) == 0, err
+		}); ok {
+			emitQ("clone_filter_cmp_min", "filterClonePairs, pair.Similarity a against req.MinSimilarity b (true = dropped)", op)
+		}
+		if op, ok := probe3("filterClonePairs: similarity against MaxSimilarity", func(rel int64) (bool, error) {
+			k, err := kept(0, 50, []int64{1}, []it{{50 + rel, 1}})
+			return len(k) == 0, err
+		}); ok {
+			emitQ("clone_filter_cmp_max", "filterClonePairs, pair.Similarity a against req.MaxSimilarity b (true = dropped)", op)
+		}
+		// decision table over the four clone types: (((min, max), enabled types), pairs (similarity, type)) -> kept pairs
+		items := []it{{49, 1}, {50, 1}, {51, 2}, {80, 3}, {79, 4}, {81, 1}, {100, 1}, {100, 4}, {0, 2}, {65, 3}}
+		var rows []string
+		for _, cfg := range []struct {
+			lo, hi int64
+			types  []int64
+		}{{50, 100, []int64{1, 2, 3, 4}}, {50, 80, []int64{1, 2}}, {0, 100, []int64{}}, {80, 50, []int64{1, 2, 3, 4}}, {66, 100, []int64{4, 1}}, {0, 100, []int64{3, 3}}} {
+			k, err := kept(cfg.lo, cfg.hi, cfg.types, items)
+			if err != nil {
+				fail("filterClonePairs: cannot be evaluated: %v", err)
+				break
+			}
+			var its, ts, ks []string
+			for _, x := range items {
+				its = append(its, fmt.Sprintf("(%s, %s)", coqQfrac(x.sim, 100), coqZint(x.typ)))
+			}
+			for _, t := range cfg.types {
+				ts = append(ts, coqZint(t))
+			}
+			for _, i := range k {
+				ks = append(ks, fmt.Sprintf("(%s, %s)", coqQfrac(items[i].sim, 100), coqZint(items[i].typ)))
+			}
+			rows = append(rows, fmt.Sprintf("((((%s, %s), [%s]), [%s]), [%s])", coqQfrac(cfg.lo, 100), coqQfrac(cfg.hi, 100), strings.Join(ts, "; "), strings.Join(its, "; "), strings.Join(ks, "; ")))
+		}
+		emitTable(b, "serviceFilterClonePairs_table", "(((Q * Q) * list Z) * list (Q * Z)) * list (Q * Z)", rows)
+	}
 }
